@@ -47,7 +47,8 @@ fn gen_ddesc(shape: &Shape, cfg: &Config, rng: &mut Rng, top: bool, tag: u32) ->
                 }
             }
         },
-        Shape::Reg => DDesc::RegWrite { v: 100 + tag as u64 },
+        // equal values written concurrently must all be kept: sometimes draw from a tiny domain
+        Shape::Reg => DDesc::RegWrite { v: if cfg.dup_values && rng.chance(1, 2) { 1 + rng.below(2) as u64 } else { 100 + tag as u64 } },
         Shape::Map(inner) => {
             if rng.below(100) < 68 {
                 DDesc::MapUp { k, inner: Box::new(gen_ddesc(inner, cfg, rng, false, tag)) }
@@ -114,7 +115,8 @@ fn gen_desc<S: Sut>(w: &World<S>, g: &mut G, node: usize, tag: u32) -> Desc {
         }
         Family::GList => {
             let len = seq_len(w, node);
-            let v = 100 + tag as u64;
+            // a GList element is its own marker: equal elements at different positions are legal
+            let v = if cfg.dup_values && rng.chance(1, 2) { 1 + rng.below(3) as u64 } else { 100 + tag as u64 };
             let ix = match rng.below(5) {
                 0 => 0,
                 1 | 2 => g.last_ix.min(len),
